@@ -766,3 +766,78 @@ c.may_raise(pdm.PDFNoValidXRef, lambda parser: _XRefLines.CASES[parser._case][1]
 c.ens("in-use-entries-under-consecutive-numbers-reader-left-in-front-of-trailer-then-the-trailer-is-read", lambda self, parser, trace: (
     dict(self.offsets) == _XRefLines.CASES[parser._case][1] and len(trace) == 1 and trace[0][0].endswith("load_trailer")
     and parser._seeks == [_XRefLines.CASES[parser._case][0][-1][0]] and parser._lines == []))
+
+
+# -- PDFXRefFallback.load (no usable cross-reference): every line `num gen obj` from the start of the file defines that object at the line's offset (a later
+#    line for the same number wins), members of object streams are entered as (stream number, index), and reading stops at the first `trailer` line -----------
+class _BodyLines(T.Sort):
+    """(offset, line) pairs as nextline() gives them; `objs` maps an offset to what nextobject() returns there"""
+    OS = "object-stream"
+    CASES = {
+        "two-objects-then-trailer": ([(9, b"1 0 obj\n"), (17, b"<< /A 1 >>\n"), (28, b"endobj\n"), (35, b"2 3 obj\n"), (43, b"(s)\n"), (47, b"endobj\n"), (54, b"trailer\n")],
+                                     {}, {1: (None, 9, 0), 2: (None, 35, 3)}, 54),
+        "redefinition-later-wins": ([(9, b"1 0 obj\n"), (30, b"endobj\n"), (40, b"1 0 obj\n"), (60, b"endobj\n"), (70, b"trailer\n")], {}, {1: (None, 40, 0)}, 70),
+        "no-trailer": ([(0, b"%PDF-1.4\n"), (9, b"7 0 obj\n"), (20, b"endobj\n")], {}, {7: (None, 9, 0)}, None),
+        "dictionary-on-the-obj-line": ([(5, b"3 0 obj<</B 2>>endobj\n"), (30, b"trailer <<>>\n")], {}, {3: (None, 5, 0)}, 30),
+        "not-object-headers": ([(0, b" 1 0 obj\n"), (10, b"12 0 objx\n"), (21, b"1 0 R\n"), (28, b"x 1 0 obj\n"), (40, b"trailer\n")], {}, {}, 40),
+        "object-stream-members": ([(9, b"4 0 obj\n"), (90, b"endobj\n"), (99, b"trailer\n")], {9: (OS, 2, [10, 0, 11, 5])}, {4: (None, 9, 0), 10: (4, 0, 0), 11: (4, 1, 0)}, 99),
+        "object-stream-N-larger-than-its-pairs": ([(9, b"4 0 obj\n"), (99, b"trailer\n")], {9: (OS, 5, [10, 0, 11, 5, 12])}, {4: (None, 9, 0), 10: (4, 0, 0), 11: (4, 1, 0)}, 99),
+        "object-stream-without-N": ([(9, b"4 0 obj\n"), (99, b"trailer\n")], {9: (OS, None, [10, 0])}, {4: (None, 9, 0)}, 99),
+    }
+    def fresh(self, ctx, name):
+        k = ctx.choose(sorted(self.CASES), "body")
+        lines, objs, _want, _tr = self.CASES[k]
+        lines = list(lines)
+        seeks, cur = [], [None]
+
+        def nextline(I):
+            from pyvc.symexec import SymRaise
+            if not lines:
+                raise SymRaise(real_module("pdfminer.psparser").PSEOF, "Unexpected EOF")
+            return lines.pop(0)
+
+        def seek(I, p):
+            seeks.append(p)
+            cur[0] = p
+
+        def nextobject(I):
+            spec = objs.get(cur[0])
+            if spec is None:
+                return (cur[0], {"plain": "object"})
+            attrs = {"Type": pdm.LITERAL_OBJSTM}
+            if spec[1] is not None:
+                attrs["N"] = spec[1]
+            return (cur[0], SObj(ptm.PDFStream, {"attrs": attrs, "get_data": SymFn(lambda I2: ("numbers", tuple(spec[2])), "get_data"), "rawdata": b"", "data": None}, "objstm"))
+        return SObj(None, {"nextline": SymFn(nextline, "nextline"), "seek": SymFn(seek, "seek"), "nextobject": SymFn(nextobject, "nextobject"),
+                           "_case": k, "_seeks": seeks, "_lines": lines}, name)
+    def sample(self, rng):
+        return None
+    def from_model(self, ev, v):
+        return v.f["_case"]
+
+
+def _sp2_init(I, bound):
+    bound["self"].f["_left"] = list(bound["data"][1])
+
+
+_spi2 = stub("pdfminer.pdfparser:PDFStreamParser.__init__", ["self", "data"]); _spi2.effect = _sp2_init
+c = contract("pdfminer.pdfdocument:PDFXRefFallback.load", props=["C02", "C13"])
+c.param("self", T.Obj("pdfminer.pdfdocument:PDFXRefFallback", trailer=T.Const({}))).param("parser", _BodyLines())
+c.skip_cross = True
+c.wire = lambda bound, ghosts: bound["self"].f.__setitem__("offsets", {})
+c.stubs = {"pdfminer.pdfdocument:PDFXRef.load_trailer": _lt, "pdfminer.pdfparser:PDFStreamParser.__init__": _spi2, "pdfminer.psparser:PSStackParser.nextobject": _spn,
+           "pdfminer.pdftypes:stream_value": (lambda st: (setattr(st, "result_fn", ("itself", lambda x: x)), st)[1])(stub("pdfminer.pdftypes:stream_value", ["x"]))}
+c.mod("self.offsets").mod("parser._seeks").mod("parser._lines")
+
+
+def _fb_spec(self, parser, trace):
+    lines, objs, want, tr = _BodyLines.CASES[parser._case]
+    if dict(self.offsets) != want:
+        return False
+    calls = [t for t in trace if t[0].endswith("load_trailer")]
+    if tr is None:
+        return len(calls) == 0 and parser._seeks[0] == 0
+    return len(calls) == 1 and parser._seeks[0] == 0 and parser._seeks[-1] == tr
+
+
+c.ens("objects-by-their-header-lines-stream-members-by-index-stops-at-the-first-trailer", _fb_spec)
